@@ -23,9 +23,10 @@ theorem PI.move (h : PI none fl T C s) (i : Nat) (hc : i ∈ s.cache) (st : Stmt
     (hq : (s.th i).qStmts = st :: rest) (hst : st.ts ≤ fl) (f : Th → Th)
     (hf : (f (s.th i)).buf = (s.th i).buf ++ [st] ∧ (f (s.th i)).qStmts = rest ∧
       (f (s.th i)).accepted = (s.th i).accepted ∧ (f (s.th i)).q.wpos = (s.th i).q.wpos ∧
-      (f (s.th i)).q.wHist.headD 0 = (s.th i).q.wHist.headD 0 ∧ (f (s.th i)).q.rpos = (s.th i).q.rpos + st.size) :
+      (f (s.th i)).q.wHist.headD 0 = (s.th i).q.wHist.headD 0 ∧ (f (s.th i)).q.rpos = (s.th i).q.rpos + st.size ∧
+      (f (s.th i)).valid = (s.th i).valid) :
     PI none fl (fun j => T j ∧ j ≠ i) C (s.setTh i f) := by
-  obtain ⟨f1, f2, f3, f4, f5, f6⟩ := hf
+  obtain ⟨f1, f2, f3, f4, f5, f6, f7⟩ := hf
   have hchain : chain (f (s.th i)) = chain (s.th i) := by
     simp only [chain, f1, f2, hq, List.append_assoc, List.singleton_append]
   have hcases : ∀ j, (s.setTh i f).th j = s.th j ∨ (j = i ∧ (s.setTh i f).th j = f (s.th i)) := by
@@ -53,10 +54,17 @@ theorem PI.move (h : PI none fl T C s) (i : Nat) (hc : i ∈ s.cache) (st : Stmt
         refine ⟨by rw [f4, f5]; exact q0.wpos, ?_, ?_⟩
         · rw [f5, f6, f2, q0.sum, hq]; simp; omega
         · rw [f2]; intro r hr; exact q0.pos r (by rw [hq]; exact List.mem_cons_of_mem _ hr)
+    reg := fun j => by rw [hch]; exact h.reg j
     bufCache := fun j hjr => by
       rcases hcases j with h1 | ⟨rfl, h1⟩
       · rw [h1]; exact h.bufCache j hjr
       · intro _; exact hc
+    ctxReg := fun b y j hy hj => by
+      obtain ⟨r1, r2⟩ := h.ctxReg b y j hy hj
+      refine ⟨r1, ?_⟩
+      rcases hcases j with h1 | ⟨rfl, h1⟩
+      · rw [h1]; exact r2
+      · rw [h1, f7]; exact r2
     ctxLt := fun b y j hy hj => by rw [length_setTh]; exact h.ctxLt b y j hy hj
     pend := fun b y r hy hb hpd => by
       obtain ⟨p1, p2, p3⟩ := h.pend b y r hy hb hpd
@@ -140,7 +148,7 @@ theorem PI.rqMove (h : PI none fl T C s) (i : Nat) (hc : i ∈ C) (st : Stmt) (r
   have e := hs.th i
   refine h2.move i (by rw [h2.cacheEq]; exact hc) st rest (by rw [e.q]; exact hq) hst _ ?_
   have f1 := qFinishRead_fields s2.cfg (s2.th i).q st.size
-  exact ⟨rfl, rfl, rfl, f1.1, congrArg (fun l => List.headD l 0) f1.2.1, f1.2.2⟩
+  exact ⟨rfl, rfl, rfl, f1.1, congrArg (fun l => List.headD l 0) f1.2.1, f1.2.2, rfl⟩
 
 variable {inj : BSt → Nat → BSt}
 
@@ -347,9 +355,9 @@ theorem PIo.pop (h : PIo fl s)
     (j : Nat) (hj : j ∈ s.cache) (st : Stmt) (rest : List Stmt) (hb : (s.th j).buf = st :: rest)
     (hmin : ∀ i ∈ s.cache, ∀ f fs, (s.th i).buf = f :: fs → st.ts ≤ f.ts) (f : Th → Th)
     (hf : (f (s.th j)).buf = rest ∧ (f (s.th j)).qStmts = (s.th j).qStmts ∧ (f (s.th j)).accepted = (s.th j).accepted ∧
-      (f (s.th j)).q = (s.th j).q) :
+      (f (s.th j)).q = (s.th j).q ∧ (f (s.th j)).valid = (s.th j).valid) :
     PIo fl { s.setTh j f with popLog := st :: s.popLog } := by
-  obtain ⟨f1, f2, f3, f4⟩ := hf
+  obtain ⟨f1, f2, f3, f4, f5⟩ := hf
   let s' : BSt := { s.setTh j f with popLog := st :: s.popLog }
   have hcases : ∀ i, s'.th i = s.th i ∨ (i = j ∧ s'.th i = f (s.th j)) := by
     intro i; rcases th_setTh_cases s j i f with h1 | ⟨h1, _, h2⟩
@@ -380,10 +388,24 @@ theorem PIo.pop (h : PIo fl s)
       · rw [h1]; exact h.qc i
       · rw [h1]; have q0 := h.qc i
         exact ⟨by rw [f4]; exact q0.wpos, by rw [f4, f2]; exact q0.sum, by rw [f2]; exact q0.pos⟩
+    reg := fun i hne => by
+      refine h.reg i ?_
+      intro he
+      cases hci : chain (s'.th i) with
+      | nil => exact hne hci
+      | cons r rs =>
+        have := hsub i r (by rw [hci]; exact List.mem_cons_self ..)
+        rw [he] at this; cases this
     bufCache := fun i hir => by
       rcases hcases i with h1 | ⟨rfl, h1⟩
       · rw [h1]; exact h.bufCache i hir
       · intro _; exact hj
+    ctxReg := fun b y i hy hi => by
+      obtain ⟨r1, r2⟩ := h.ctxReg b y i hy hi
+      refine ⟨r1, ?_⟩
+      rcases hcases i with h1 | ⟨rfl, h1⟩
+      · rw [h1]; exact r2
+      · rw [h1, f5]; exact r2
     ctxLt := fun b y i hy hi => by
       show i < (s.setTh j f).ths.length
       rw [length_setTh]; exact h.ctxLt b y i hy hi
@@ -475,7 +497,7 @@ theorem PIo.processLowest (hi : InjOK inj) (h : PIo fl s)
       have h2 : PIo fl s2 := h.frame hcore
       have hpop : PIo fl (plPop s2 j st rest) := by
         unfold plPop
-        refine h2.pop ?_ j (by rw [hcache]; exact hj) st rest (by rw [hth]; exact hb) ?_ _ ⟨rfl, rfl, rfl, rfl⟩
+        refine h2.pop ?_ j (by rw [hcache]; exact hj) st rest (by rw [hth]; exact hb) ?_ _ ⟨rfl, rfl, rfl, rfl, rfl⟩
         · intro hp i hir hbi r hr
           rw [hth] at hbi hr; rw [hreg] at hir
           refine hall ?_ i hir hbi r hr
